@@ -650,7 +650,7 @@ def reverseStep (lower upper : Nat) : M σ Unit := fun s =>
 
 def reverseCore (length : Nat) : M σ Ret := fun s =>
   let middle := length / 2
-  (do forUp (fun lower => reverseStep O lower (length - lower - 1)) 0 middle; pure (Ret.val (O.thisRaw s))) s     -- return call.This
+  (do forUp (fun lower => reverseStep O lower (length - lower - 1)) 0 middle; pure (Ret.val .recv)) s     -- return objectValue(thisObject)
 
 def reverse : M σ Ret := do
   let length ← readLen O
@@ -684,9 +684,9 @@ def join (args : List Val) : M σ Ret := do
     else pure args
   joinCore O E length pargs
 
-/-- builtinArrayToString (builtin_array.go:29): `join.call(call.This, call.ArgumentList, …)` — the arguments of
-    toString are handed on to join (the case of a non-callable `join` is not modelled) -/
-def toStringM (args : List Val) : M σ Ret := join O E args
+/-- builtinArrayToString (builtin_array.go:29): `join.call(call.This, nil, …)` (the case of a non-callable `join`
+    is not modelled) -/
+def toStringM (_args : List Val) : M σ Ret := join O E []
 
 /-- an argument of concat: a primitive / non-array value, or an array given by its elements as
     [[HasProperty]]/[[Get]] see them (`none` = absent) -/
@@ -958,8 +958,8 @@ def sortQuick (cmp : SortCmp) : Nat → Nat → Nat → M σ Unit
 /-- builtinArraySort (builtin_array.go:447); `callable` = comparefn is undefined or callable -/
 def sortCore (callable : Bool) (cmp : SortCmp) (length : Nat) : M σ Ret := fun s =>
   if !callable then .err .type s
-  else if length > 1 then (do sortQuick O E cmp length 0 (length - 1); pure (Ret.val (O.thisRaw s))) s   -- return call.This
-  else .ok (Ret.val (O.thisRaw s)) s
+  else if length > 1 then (do sortQuick O E cmp length 0 (length - 1); pure (Ret.val .recv)) s   -- return objectValue(thisObject)
+  else .ok (Ret.val .recv) s
 
 def sort (callable : Bool) (cmp : SortCmp) : M σ Ret := do
   let length ← readLen O
@@ -1055,11 +1055,17 @@ def modelOps (E : Env) : Ops St where
   thisRaw := fun s => s.thisRaw
 
 /-- `a[k] = v` / Object.defineProperty(a, k, {value: v, …}) when v may be a scripted object: only the length of an
-    array converts its value — arrayUint32 calls Value.number() once (type_array.go:80), after [[Put]]'s CanPut -/
+    array converts its value — for an object `newLength = toUint32(v)` and then `float64(newLength) != v.float64()`
+    ⇒ RangeError (type_array.go:74-83), after [[Put]]'s CanPut -/
 def stDefine (E : Env) (k : Key) (d : Desc) (throw : Bool) : M St Bool := fun s =>
   match k, d.v, s.o.isArr with
   | .length, some (.obj id), true =>
-    ((modelOps E).conv (.obj id) >>= fun p => liftObj (defineOwnProperty E .length { d with v := some p } throw)) s
+    ((modelOps E).conv (.obj id) >>= fun p1 =>
+      (modelOps E).conv (.obj id) >>= fun p2 =>
+        let newLength := toUint32 E p1
+        if eqNum (ofInt newLength) (toFloat E p2)
+        then liftObj (defineOwnProperty E .length { d with v := some (.int newLength) } throw)
+        else M.throw .range) s
   | _, _, _ => liftObj (defineOwnProperty E k d throw) s
 
 def stPut (E : Env) (k : Key) (v : Val) (throw : Bool) : M St Unit := fun s =>
